@@ -344,7 +344,11 @@ func TestC08_Random(t *testing.T) {
 	is := newIsolator()
 	defer is.Close()
 	g := genC08Random()
+	var hg hangGuard
 	rapidRun(t, rec, 60000, 400000, func(rt *rapid.T) {
+		if hg.tripped() {
+			return
+		}
 		s := g.Draw(rt, "input")
 		c := mkC08(s)
 		res, msg := c08Run(is, c)
@@ -352,9 +356,7 @@ func TestC08_Random(t *testing.T) {
 		if !utf8.ValidString(s) {
 			rec.Class("invalid_utf8")
 		}
-		if msg != "" && rec.Fail(c, msg) {
-			rt.Fatalf("%s on %q", msg, s)
-		}
+		hg.fail(rt, rec, c, msg, fmt.Sprintf(" on %q", s))
 	})
 	c08Floors(rec)
 }
@@ -515,15 +517,17 @@ func TestC08_Mutations(t *testing.T) {
 		}
 		rec.Exhaustive("corpus_unchanged", len(cp))
 	}
+	var hg hangGuard
 	rapidRun(t, rec, 60000, 400000, func(rt *rapid.T) {
+		if hg.tripped() {
+			return
+		}
 		base := rapid.SampledFrom(cp).Draw(rt, "base")
 		s := genMutation(base).Draw(rt, "mutant")
 		c := mkC08(s)
 		res, msg := c08Run(is, c)
 		c08Record(rec, s, res, false)
-		if msg != "" && rec.Fail(c, msg) {
-			rt.Fatalf("%s on %q", msg, s)
-		}
+		hg.fail(rt, rec, c, msg, fmt.Sprintf(" on %q", s))
 	})
 	c08Floors(rec)
 }
